@@ -71,7 +71,7 @@ func execute(f *bexpr.Filter, data interface{}) (res interface{}, desc string) {
 	out, err := f.Execute(data)
 	switch {
 	case err != nil && out != nil:
-		return out, "BOTH"
+		return out, "BOTH:" + snapshot(out)
 	case err != nil:
 		return nil, "E"
 	}
